@@ -106,6 +106,16 @@ OpenOutcome(d, cmd, u, o) ==
                                          ELSE IF Denied(cmd, d.perm, Rev(d.alg)) THEN "ErrPermissionDenied" ELSE "ok"
          [] OTHER                     -> "ErrWrongPassword"
 
+(* Password realisations (C25).  The decision rules do not depend on what a password looks like, only on equality; *)
+(* the replayer therefore realises the symbolic passwords "a" and "b" with byte lengths around the limits of the   *)
+(* algorithms (32 significant bytes for revisions <= 4, 127 for revisions 5/6) and around common allocation size   *)
+(* classes, alternately as ASCII and as multi-byte UTF-8 text.  Realisation r gives <<bytes of "a", bytes of "b">>; *)
+(* the two always differ in their first byte, so they stay distinct after any truncation.                            *)
+PwLens == << <<1, 1>>, <<32, 33>>, <<40, 41>>, <<48, 49>>, <<56, 64>>, <<65, 127>>, <<128, 129>> >>
+Realisations == 0..(Len(PwLens) - 1)
+PwLen(r, sym) == IF sym = "a" THEN PwLens[r + 1][1] ELSE PwLens[r + 1][2]
+PwMultiByte(r, sym) == r > 0 /\ ((r % 2 = 1) = (sym = "b"))
+
 (* Commands that refuse encrypted input altogether (before any password check). *)
 EncryptedRefused == {"BOOKLET", "ENCRYPT", "MERGEAPPEND", "MERGECREATE", "MERGECREATEZIP", "ADDSIGNATURE"}
 ChangeModes == {"CHANGEUPW", "CHANGEOPW", "SETPERMISSIONS"}
